@@ -56,7 +56,25 @@ def bases():
          N("e"), T.EQ, T.ONE, T.END],
         [T.A, T.EQ, T.ONE],
         [T.A, T.EQ, T.LP, T.ONE, T.RP, T.SEMI],
+    ] + omni_bases()
+
+
+def omni_bases():
+    """labels with missing values: loadable by the permissive loader only (reference: R2 in omni
+    mode); the layouts around an empty value, a quoted string and a ';' are exactly where the
+    repair code looks at the raw text"""
+    N = lambda s: ("NAME", s, None)        # noqa: E731
+    Qd = ("QUOTED", '"q r"', "q r")
+    Qs = ("QUOTED", "'x'", "x")
+    return [
+        [T.A, T.EQ, Qd, N("e"), T.EQ, T.B, T.EQ, T.ONE],
+        [T.A, T.EQ, Qs, T.SEMI, N("e"), T.EQ, T.B, T.EQ, T.ONE, T.END],
+        [T.GROUP, T.EQ, N("g"), N("e"), T.EQ, T.END_GROUP, T.A, T.EQ, Qs, N("f"), T.EQ, T.SEMI,
+         T.B, T.EQ, T.LP, T.ONE, T.RP, N("h"), T.EQ],
     ]
+
+
+OMNI_FROM = 9          # bases()[OMNI_FROM:] are the missing-value labels
 
 
 def kind(tok):
@@ -183,8 +201,8 @@ def seps_for(d, left, right, alphabet):
     return out
 
 
-def reference(seq, d):
-    v = R.verdict(seq, T.MODE[d])
+def reference(seq, d, bi=0):
+    v = R.verdict(seq, "omni" if bi >= OMNI_FROM else T.MODE[d])
     assert v[0] == "WELL", (T.render(seq), d, v)
     return T.tree_canon(v[1])
 
@@ -192,7 +210,7 @@ def reference(seq, d):
 def shard_base(spec):
     d, bi, mode, part, nparts = spec
     seq = bases()[bi]
-    want = reference(seq, d)
+    want = reference(seq, d, bi)
     acc = Acc()
     G = gaps_of(seq)
     full = [""] + WS + COMMENTS + HASH
@@ -345,6 +363,8 @@ def run(ctx):
     specs = []
     for d in tuple(impl.DIALECTS) + ("ISISx",):
         for bi, seq in enumerate(B):
+            if bi >= OMNI_FROM and d not in ("OMNI", "ISISx"):
+                continue
             ng = len(gaps_of(seq))
             specs += [(d, bi, "d1", p, 4) for p in range(4)]
             if ng <= (5 if ctx.quick else 7):
@@ -387,7 +407,8 @@ def run(ctx):
                             "of the text (the property's list); elsewhere a non-empty separator is kept",
                             "a bare comment is not placed against a token that starts/ends with '/' or '*'; separators "
                             "that create '-' + line end are excluded for ISIS/default (continuation syntax)",
-                            "labels with missing values are excluded (C08 covers them)"]}
+                            "labels with missing values are bases for the permissive configurations only (the strict "
+                            "ones reject them, C08)"]}
 
 
 def replay(case):
@@ -401,7 +422,7 @@ def replay(case):
         return []
     seq = bases()[case["base"]]
     seps = {int(k): v for k, v in case["seps"].items()}
-    judge(acc, d, seq, reference(seq, d), seps, {"base": case["base"]})
+    judge(acc, d, seq, reference(seq, d, case["base"]), seps, {"base": case["base"]})
     return acc.violations
 
 
